@@ -228,3 +228,22 @@ def eqpos(p0='D', /, a='D', *va, k='D', **kw):
 
 def eq3(x='D', y='D', z='D'):
   return vfx.rec('eq3', locals())
+
+
+MUT_DEFAULT = ['m']
+
+
+def md(x=MUT_DEFAULT, y='dy'):
+  """A callable whose default is a mutable, shared object."""
+  return vfx.rec('md', locals())
+
+
+def md2(x=MUT_DEFAULT, y=MUT_DEFAULT):
+  return vfx.rec('md2', locals())
+
+
+@dataclasses.dataclass
+class DC2:
+  a: object = 'da'
+  b: object = dataclasses.field(default_factory=lambda: ['fb'])
+  c: object = None
